@@ -550,6 +550,18 @@ func replayCase(cs Case) string {
 		if cs.Index < len(ts) {
 			return typeOne(ts[cs.Index], nil)
 		}
+	case "promoted":
+		if cs.Index < len(promotedValues()) {
+			return promotedOne(cs.Index)
+		}
+	case "names":
+		if cs.Index < len(nameTypes) {
+			return nameOne(cs.Index, []byte(cs.Text), nil)
+		}
+	case "names2":
+		if cs.Index < len(nameTypes) {
+			return nameOne(cs.Index, []byte(cs.Text), []byte(cs.Prog))
+		}
 	}
 	return ""
 }
@@ -623,7 +635,7 @@ func typeOne(t reflect.Type, count *int64) string {
 }
 
 func Run(r *evid.Run) {
-	r.Rule("oracle = the standard library's classic encoding/json of the same toolchain. (1) Valid, Compact, HTMLEscape and Indent with all 25 (prefix, indent) pairs from {\"\", \" \", TAB, \">\", \"ab\"} on every string of the alphabet views plus a whitespace view: same success, same bytes. (2) every type of a reflect-built universe restricted to features both packages support (tags name/omitempty/omitzero/string/-, embedded structs and pointers, string/int/TextMarshaler map keys, interfaces, RawMessage, Number, MarshalJSON/MarshalText on value and pointer receivers) x value domains: Marshal and MarshalIndent agree (bytes, error-ness, user methods called); Unmarshal of every marshal output, every one-byte neighbour of the short ones, case variants, duplicated members and 22 wrong-kind texts into zero and pre-populated targets: same error-ness, DeepEqual values, target untouched on syntactically invalid input. (3) Decoder: every program over {Decode(any), Decode(struct), Token, More, InputOffset} up to length L on 40 documents x {plain, UseNumber, DisallowUnknownFields}. (4) Encoder: every sequence up to length 3 over Encode of 8 values, SetIndent and SetEscapeHTML. evaluations = differential comparisons; distinct_nontrivial = distinct inputs on which encoding/json succeeds (both must then agree byte for byte)")
+	r.Rule("oracle = the standard library's classic encoding/json of the same toolchain. (1) Valid, Compact, HTMLEscape and Indent with all 25 (prefix, indent) pairs from {\"\", \" \", TAB, \">\", \"ab\"} on every string of the alphabet views plus a whitespace view: same success, same bytes. (2) every type of a reflect-built universe restricted to features both packages support (tags name/omitempty/omitzero/string/-, embedded structs and pointers, string/int/TextMarshaler map keys, interfaces, RawMessage, Number, MarshalJSON/MarshalText on value and pointer receivers) x value domains: Marshal and MarshalIndent agree (bytes, error-ness, user methods called); Unmarshal of every marshal output, every one-byte neighbour of the short ones, case variants, duplicated members and 22 wrong-kind texts into zero and pre-populated targets: same error-ness, DeepEqual values, target untouched on syntactically invalid input. (2b) promoted members with pointer-receiver methods under every embedding shape and root position; every member name over {a,b,A,B,_,-} up to length 4 (thorough 5) against fields whose names contain '_' and '-' (plain and DisallowUnknownFields). (3) Decoder: every program over {Decode(any), Decode(struct), Token, More, InputOffset} up to length L on 40 documents x {plain, UseNumber, DisallowUnknownFields}. (4) Encoder: every sequence up to length 3 over Encode of 8 values, SetIndent and SetEscapeHTML. evaluations = differential comparisons; distinct_nontrivial = distinct inputs on which encoding/json succeeds (both must then agree byte for byte)")
 	r.Assume("encoding/json of the Go toolchain in use is the reference implementation by definition of the property", "method types log through package-level state, so the typed part runs sequentially")
 	// part 1
 	lens := views.ForTier(r.Tier).Minus(1)
@@ -667,6 +679,7 @@ func Run(r *evid.Run) {
 	if k := knownSpelling.Load(); k > 0 {
 		r.Violation(KnownSpellingKey, fmt.Sprintf("v1.Marshal spells the replacement of ill-formed UTF-8 as the raw character U+FFFD where encoding/json writes the escape \\ufffd (%d marshal outputs differ only in this)", k), Case{Part: "types", Text: `Marshal("a\xffb")`}, nil)
 	}
+	extraFamilies(r)
 	nn, msgs := numberFamily()
 	n += nn
 	for _, m := range msgs {
